@@ -29,7 +29,8 @@ from typing import Any, Dict, List, Optional, Sequence, Tuple
 from ..core import Ctx, MachineryError, chunks
 
 FORMATS = ["epytext", "restructuredtext", "google", "numpy", "plaintext"]
-WORD_RE = re.compile(r"wq\d\d\dx")
+# a vocabulary word counts only when it stands alone: "wq001xwq002x" (two words run together) is an ALTERED text
+WORD_RE = re.compile(r"(?<![A-Za-z0-9_])wq\d\d\dx(?![A-Za-z0-9_])")
 
 
 def word(i: int) -> str:
@@ -49,6 +50,8 @@ def para_lines(n: Dict[str, Any], rst: bool, lit: bool) -> List[str]:
         lines = [f"{w[0]} {w[1]}", w[2]]
     elif st == "word":
         lines = [w[0]]
+    elif st == "colon":
+        lines = [f"{w[0]}: {w[1]} {w[2]}"]
     elif rst:
         lines = {"bold": [f"{w[0]} **{w[1]}** {w[2]}"] if len(w) > 2 else None,
                  "italic": [f"*{w[0]} {w[1]}* {w[2]}"] if len(w) > 2 else None,
@@ -204,7 +207,7 @@ def ser_tagged(doc: Sequence[Dict[str, Any]], templates: Dict[str, Any], rst: bo
         form = f.get("form", "plain")
         if form != "plain":
             # reST consolidated field: consecutive fields of one kind and form are the entries of one ":Parameters:"
-            if not rst:
+            if not rst or form == "nsee":
                 raise NotExpressible("consolidated fields are a reStructuredText notation")
             group = (f["kind"], form)
             if group != prev_group:
@@ -246,10 +249,16 @@ NUMPY_SECTION = {"param": "Parameters", "arg": "Arguments", "keyword": "Keyword 
 FREEFORM = {"return", "returns", "yield", "yields", "note", "see", "seealso"}
 
 
+def numpy_free_form(body: Sequence[Dict[str, Any]]) -> bool:
+    """numpy Returns / Yields written as free text (kinds returns / yields; return / yield use the typed form): the first
+    line must not look like a type, i.e. be several plain words, and nothing indented may follow it directly"""
+    return body[0]["style"] != "word" and all(n["t"] == "para" and n["lv"] == 0 for n in body)
+
+
 def ser_napoleon(doc: Sequence[Dict[str, Any]], templates: Dict[str, Any], numpy: bool) -> str:
     regs = regions(doc)
-    if any(n["t"] == "field" and n.get("form", "plain") != "plain" for n in doc):
-        raise NotExpressible("consolidated fields are a reStructuredText notation")
+    if any(n["t"] == "field" and n.get("form", "plain") not in (("plain", "nsee") if numpy else ("plain",)) for n in doc):
+        raise NotExpressible("consolidated fields are a reStructuredText notation, See Also reference lists a numpy one")
     if any(n["t"] == "head" for n in regs[0]):
         raise NotExpressible("section headings collide with the section syntax of this style")
     table = NUMPY_SECTION if numpy else GOOGLE_SECTION
@@ -259,6 +268,29 @@ def ser_napoleon(doc: Sequence[Dict[str, Any]], templates: Dict[str, Any], numpy
     for reg in regs[1:]:
         f, body = reg[0], reg[1:]
         kind, arg = f["kind"], f["arg"]
+        if f.get("form") == "nsee":
+            # numpy "See Also": a reference list, one item per field, consecutive items in one section
+            if prev_section != "See Also/nsee":
+                out.sep()
+                out.put(0, "See Also")
+                out.put(0, "--------")
+            prev_section = "See Also/nsee"
+            assert len(body) == 1 and body[0]["t"] == "para"
+            w = [word(i) for i in body[0]["w"]]
+            st = body[0]["style"]
+            if st == "sabare":
+                out.put(0, w[0]); out.put(4, f"{w[1]} {w[2]}"); out.put(4, w[3])
+            elif st == "sacolon":
+                out.put(0, f"{w[0]} : {w[1]} {w[2]}"); out.put(4, w[3])
+            elif st == "sacomma":
+                out.put(0, f"{w[0]}, {w[1]}")
+            elif st == "saname":
+                out.put(0, w[0])
+            elif st == "sacommad":
+                out.put(0, f"{w[0]}, {w[1]}"); out.put(4, f"{w[2]} {w[3]}")
+            else:
+                raise AssertionError(st)
+            continue
         if kind not in table:
             raise NotExpressible(f"no {kind} section in this style")
         if kind in ("warn", "warns") and not arg:
@@ -275,7 +307,8 @@ def ser_napoleon(doc: Sequence[Dict[str, Any]], templates: Dict[str, Any], numpy
             out.sep()
         prev_section = section
         if numpy:
-            if kind in ("note", "see", "seealso"):
+            if kind in ("note", "see", "seealso") or (kind in ("returns", "yields") and numpy_free_form(body)):
+                # free text; for Returns / Yields pydoctor accepts it when the first line is not a type
                 emit_blocks(out, body, 0, True, templates)
             else:
                 # entry line: name (parameters ...), exception type (raises, warns), return type (returns, yields)
@@ -289,8 +322,11 @@ def ser_napoleon(doc: Sequence[Dict[str, Any]], templates: Dict[str, Any], numpy
     return "\n".join(out.lines)
 
 
-def serialise(doc: Sequence[Dict[str, Any]], fmt: str, templates: Dict[str, Any]) -> Optional[str]:
+def serialise(doc: Sequence[Dict[str, Any]], fmt: str, templates: Dict[str, Any], host: str = "function") -> Optional[str]:
     try:
+        if host == "property" and fmt in ("google", "numpy") and any(n["t"] == "field" for n in doc):
+            # napoleon reads the docstring of an attribute / property as "type: description" text, sections are not parsed
+            raise NotExpressible("google / numpy attribute docstrings have no sections")
         if fmt == "epytext":
             ds = ser_tagged(doc, templates, rst=False)
         elif fmt == "restructuredtext":
@@ -421,18 +457,18 @@ def observe(html: str) -> Dict[str, Any]:
             if argc:
                 named = argc[0].find_all(lambda n: n.tag == "span" and has_cls(n, "fieldArg"))
                 arg = (named[0].all_text() if named else argc[0].all_text()).strip().lstrip("*").rstrip(":")
-            rows.append({"label": label, "arg": arg, "words": words_of(tr.all_text()),
+            rows.append({"label": label, "arg": arg, "words": words_of(tr.spaced_text()),
                          "pre": [norm_block(p.all_text()) for p in tr.find_all(lambda n: n.tag == "pre")]})
     adm_nodes = root.find_all(lambda n: n.tag == "div" and has_cls(n, "rst-admonition"))
-    adms = [{"cls": a.cls, "words": words_of(a.all_text()),
+    adms = [{"cls": a.cls, "words": words_of(a.spaced_text()),
              "pre": [norm_block(p.all_text()) for p in a.find_all(lambda n: n.tag == "pre")]} for a in adm_nodes]
 
-    def body_text(n: Node) -> str:
+    def body_text(n: Node) -> str:          # text nodes kept apart: only what is joined INSIDE a text node is a joined word
         if n.tag == "#":
             return n.text
         if (n.tag == "table" and has_cls(n, "fieldTable")) or (n.tag == "div" and has_cls(n, "rst-admonition")):
             return ""
-        return "".join(body_text(k) for k in n.kids)
+        return " ".join(body_text(k) for k in n.kids)
 
     def body_pre(n: Node) -> List[str]:
         res: List[str] = []
@@ -463,6 +499,9 @@ def make_source(cases: Sequence[Tuple[str, str, str]]) -> str:
         body = "\n".join(("    " + ln) if ln else "" for ln in ds.split("\n"))
         if host == "function":
             src.append(f"def {name}({PARAMS}):\n    r\"\"\"\n{body}\n    \"\"\"\n")
+        elif host == "property":
+            body8 = "\n".join(("        " + ln) if ln else "" for ln in ds.split("\n"))
+            src.append(f"class {name}:\n    @property\n    def p(self):\n        r\"\"\"\n{body8}\n        \"\"\"\n")
         else:
             src.append(f"class {name}:\n    r\"\"\"\n{body}\n    \"\"\"\n    def __init__(self, {PARAMS}):\n        pass\n")
     return "\n".join(src)
@@ -523,8 +562,10 @@ def render_batch(fmt: str, cases: Sequence[Dict[str, Any]]) -> List[Dict[str, An
     res = []
     for c in cases:
         full = f"mm{c['id']}" if c["host"] == "module" else f"m.o{c['id']}"
-        obj = system.allobjects[full]
         build_log = by_obj.get(full, [])
+        if c["host"] == "property":
+            full += ".p"
+        obj = system.allobjects[full]
         n0 = len(system.log)
         html = flatten(epydoc2stan.format_docstring(obj))
         attr_html = {}
@@ -606,15 +647,23 @@ def judge(rec: Dict[str, Any], fmt: str, docstring: str, r: Dict[str, Any],
         root = parse_html(r["html"])
         pre = root.find_all(lambda n: n.tag == "p" and has_cls(n, "pre"))
         shown = pre[0].all_text() if len(pre) == 1 else root.all_text()
-        if shown != docstring or words_of(root.all_text()) != words_of(docstring):
+        if shown != docstring or words_of(root.spaced_text()) != words_of(docstring):
             bad.append({"invariant": "PlaintextExact", "expected": docstring, "observed": root.all_text()})
         return bad
     ob = observe(r["html"])
     log = r["log"]
     exp_body = [word(i) for i in rec["text"]]
+    exp_pre = [norm_block(verb_text(v)) for v in rec["verbatim"]]
+    # a property's return field whose docstring has no description of its own is presented AS the description
+    # (epytext / reST; google / numpy produce a "returns" field, which stays a row)
+    as_desc = None
+    for f in rec["fields"]:
+        if f["where"] == "description" and not exp_body and ob["body"] == [word(i) for i in f["words"]]:
+            as_desc = f
+            exp_body = [word(i) for i in f["words"]]
+            exp_pre = [norm_block(verb_text(v)) for v in f["verb"]]
     if ob["body"] != exp_body:
         bad.append({"invariant": "BodyText", "expected": exp_body, "observed": ob["body"]})
-    exp_pre = [norm_block(verb_text(v)) for v in rec["verbatim"]]
     if ob["pre"] != exp_pre:
         bad.append({"invariant": "BodyVerbatim", "expected": exp_pre, "observed": ob["pre"]})
     shown: List[str] = []           # every vocabulary word shown outside the description
@@ -634,6 +683,8 @@ def judge(rec: Dict[str, Any], fmt: str, docstring: str, r: Dict[str, Any],
         kind, arg, entry = f["kind"], f["arg"], f["entry"]
         ok = False
         words_ok = False
+        if f is as_desc:
+            continue
         if f["where"] == "attribute":
             o = attr_obs.get(arg)
             ok = o is not None and o["body"] == fw and o["pre"] == fpre
@@ -647,10 +698,10 @@ def judge(rec: Dict[str, Any], fmt: str, docstring: str, r: Dict[str, Any],
                     if contiguous(fpre, row["pre"]):
                         ok = True
             if fmt in ("google", "numpy") and kind in ADMONITION:      # these styles present notes as admonitions
-                for a in ob["adm"]:
-                    if ADMONITION[kind] in a["cls"].split() and a["words"] == fw:
+                for a in ob["adm"]:                                     # (one admonition may hold several See Also items)
+                    if ADMONITION[kind] in a["cls"].split() and contiguous(fw, a["words"]):
                         words_ok = True
-                        if a["pre"] == fpre:
+                        if contiguous(fpre, a["pre"]):
                             ok = True
         if ok:
             expected_shown += fw
@@ -703,7 +754,7 @@ def tla_set(xs: Sequence[str]) -> str:
 
 
 def tlc_documents(ctx: Ctx, cfg: str, timeout: int = 1500) -> Tuple[List[Dict[str, Any]], Dict[str, Any], Any]:
-    r = ctx.tlc("DocModel", cfg, workers="auto", check=True, timeout=timeout)
+    r = ctx.tlc("DocModel", cfg, workers=(4 if ctx.quick else "auto"), check=True, timeout=timeout)
     if r.violated:
         raise MachineryError(f"DocModel: the generator's own sanity invariant failed: {r.violated}")
     templates = None
@@ -724,7 +775,7 @@ def work(args: Tuple[str, List[Dict[str, Any]], Dict[str, Any]]) -> Dict[str, An
     cases, kept = [], []
     skipped = 0
     for i, rec in enumerate(recs):
-        ds = serialise(rec["doc"], fmt, templates)
+        ds = serialise(rec["doc"], fmt, templates, rec["host"])
         if ds is None:
             skipped += 1
             continue
@@ -737,7 +788,8 @@ def work(args: Tuple[str, List[Dict[str, Any]], Dict[str, Any]]) -> Dict[str, An
         return out
     results = render_batch(fmt, cases)
     for c, rec, r in zip(cases, kept, results):
-        if r["docstring"] != c["docstring"]:
+        if r["docstring"] != c["docstring"] and not (rec["host"] == "property" and r["docstring"] == ""):
+            # (a property whose return field became its description has its docstring blanked by the builder)
             raise MachineryError(f"docstring did not reach pydoctor unchanged: {c['docstring']!r} vs {r['docstring']!r}")
         out["rendered"] += 1
         perr = [m for m in r["log"] if "bad docstring" in m]
@@ -979,7 +1031,41 @@ def kf_napoleon_literal_after_one_line(w: Dict[str, Any]) -> bool:
     return f["kind"] in ("return", "returns") and any(d[i + 2]["var"] == 3 for i in culprits)
 
 
-MATCHERS = {"rst-lone-section-title-dropped": kf_rst_lone_title,
+def _field_body(w: Dict[str, Any]) -> List[Dict[str, Any]]:
+    """nodes of the failing field's body"""
+    f = w["failed"].get("field") or {}
+    regs = regions(_doc(w))
+    return regs[f["index"] + 1][1:] if "index" in f and f["index"] + 1 < len(regs) else []
+
+
+def kf_property_return_with_description(w: Dict[str, Any]) -> bool:
+    """@return / :return: in the docstring of a property that also has a description: astbuilder._handlePropertyDef keeps the
+    field only to turn it into the description of a body-less docstring, otherwise it drops it (a 'returns' field is kept)"""
+    f = w["failed"].get("field") or {}
+    return w["invariant"] == "FieldShownOrReported" and w["rec"]["host"] == "property" and f.get("kind") == "return" \
+        and f.get("where") == "row" and w["format"] in ("epytext", "restructuredtext") and bool(w["rec"]["text"])
+
+
+def kf_numpy_see_also_names_then_description(w: Dict[str, Any]) -> bool:
+    """numpy See Also: a line of comma separated names followed by indented description lines - the description is dropped"""
+    f = w["failed"].get("field") or {}
+    body = _field_body(w)
+    return w["invariant"] == "FieldShownOrReported" and w["format"] == "numpy" and f.get("kind") in ("see", "seealso") \
+        and len(body) == 1 and body[0].get("style") == "sacommad"
+
+
+def kf_numpy_free_form_colon(w: Dict[str, Any]) -> bool:
+    """numpy free-form Returns / Yields whose first line contains a colon: 'The result: a value' is shown as
+    'The resulta value' (the two sides of the colon are concatenated)"""
+    f = w["failed"].get("field") or {}
+    body = _field_body(w)
+    return w["invariant"] == "FieldShownOrReported" and w["format"] == "numpy" and f.get("kind") in ("returns", "yields") \
+        and bool(body) and body[0].get("style") == "colon" and numpy_free_form(body)
+
+
+MATCHERS = {"property-return-field-dropped": kf_property_return_with_description,
+            "numpy-see-also-description-after-name-list-dropped": kf_numpy_see_also_names_then_description,
+            "numpy-free-form-returns-colon-swallowed": kf_numpy_free_form_colon,"rst-lone-section-title-dropped": kf_rst_lone_title,
             "var-field-in-function-docstring-dropped": kf_var_field_in_function,
             "duplicate-named-field-silently-replaced": kf_duplicate_named_field,
             "napoleon-literal-after-one-line-entry": kf_napoleon_literal_after_one_line}
@@ -994,9 +1080,13 @@ def plan(ctx: Ctx) -> List[Dict[str, Any]]:
             dict(name="structure<=3", actions=3, depth=3, fields=2, kinds=rep, blocks=ALL_BLOCKS, free=False, sample=None),
             dict(name="fields", actions=2, depth=1, fields=2, kinds=ALL_KINDS, blocks=["para"], free=False, sample=None),
             dict(name="structure=4", actions=4, depth=3, fields=1, kinds=["param", "note"], blocks=ALL_BLOCKS, free=False,
-                 sample=1200),
+                 sample=700),
+            dict(name="styles-free<=2", actions=2, depth=1, fields=2, kinds=["param", "returns", "note"], blocks=["para"], free=True,
+                 sample=None),
+            dict(name="numpy-see-also<=3", actions=4, depth=1, fields=3, kinds=["seealso", "param"], blocks=["para"], free=False,
+                 sample=None, forms=["plain", "nsee"], formats=["numpy"], need_form="nsee"),
             dict(name="rst-consolidated<=3", actions=3, depth=2, fields=2, kinds=CONS_KINDS, blocks=["para", "list", "lit", "doctest"],
-                 free=False, sample=2500, forms=["plain", "cbullet", "cdef"], formats=["restructuredtext"]),
+                 free=False, sample=1200, forms=["plain", "cbullet", "cdef"], formats=["restructuredtext"]),
         ]
     return [
         dict(name="structure<=4", actions=4, depth=3, fields=2, kinds=rep, blocks=ALL_BLOCKS, free=False, sample=None),
@@ -1008,6 +1098,8 @@ def plan(ctx: Ctx) -> List[Dict[str, Any]]:
              sample=25000),
         dict(name="nesting<=6", actions=6, depth=3, fields=0, kinds=[], blocks=["para", "list", "lit", "doctest"], free=False,
              sample=20000),
+        dict(name="numpy-see-also<=4", actions=5, depth=1, fields=4, kinds=["seealso", "param"], blocks=["para"],
+             free=False, sample=None, forms=["plain", "nsee"], formats=["numpy"], need_form="nsee"),
         dict(name="rst-consolidated<=4", actions=4, depth=2, fields=2, kinds=CONS_KINDS + ["note"], blocks=["para", "list", "lit", "doctest", "code"],
              free=False, sample=30000, forms=["plain", "cbullet", "cdef"], formats=["restructuredtext"]),
     ]
@@ -1043,7 +1135,8 @@ def run(ctx: Ctx) -> int:
         recs, templates, r = tlc_documents(ctx, cfg)
         if pl.get("forms"):
             # documents without a consolidated field are the business of the other configurations
-            recs = [x for x in recs if any(n["t"] == "field" and n["form"] != "plain" for n in x["doc"])]
+            recs = [x for x in recs if any(n["t"] == "field" and (n["form"] == pl["need_form"] if pl.get("need_form")
+                                                                  else n["form"] != "plain") for n in x["doc"])]
         enumerated = len(recs)
         if pl["sample"] is not None and len(recs) > pl["sample"]:
             recs.sort(key=lambda x: json.dumps(x["doc"], sort_keys=True) + x["host"])
